@@ -49,6 +49,12 @@ def streams(tier, rng, P, only=None, cases=None):
             srcs.append(rng.choice(["Function Swell(Int %s, Int %s){ l8 c d e } TR(1) o5 l4 Swell(100, 40) g PRINT({%s})",
                                     "FUNCTION Fq(%s, %s=3){ INT %s=1 RETURN(5) } PRINT(Fq(1)) c",
                                     "Function Gq(Str %s){ Int %s = 2; Int %s = 3; c } Gq({a}) d"]) % (a, b, c3))
+        # values of failing built-in calls (wrong argument counts, bad indices) that end up in the file as meta text: the message language
+        # changes the wording of the log, never such a value
+        for fn in ['MID("abcdef",2)', "MID({x})", "MID()", "REPLACE({abc},{b})", "REPLACE({a})", "REPLACE()", "HEX()", "CHR()", "SizeOf()", "ABS()", "MID({abc},{q},{r})", "ASC()", "NoSuchFn(3)"]:
+            for kw in ["TrackName", "Text", "Lyric"]:
+                srcs.append("%s=%s c" % (kw, fn))
+            srcs.append("STR S=%s; TrackName=S; PRINT(S) c" % fn)
         # byte-level layout of the source file: line ends, byte-order mark, line breaks inside strings and comments — the command-line tool
         # must hand the library's entry point the text as it is
         srcs += ['TrackName={"ab\r\ncd"}\r\nl8 cde\r\n', 'Text{"a\rb"} c\rd', "\ufeffc d e", "c\r\nd\r\ne\r\n", "/* x\r\ny */ c\r\n", "PRINT({a\r\nb}) c\r\n",
